@@ -1,11 +1,322 @@
-//! C07 — check not built yet.
-use mc_core::Args;
-use serde_json::Value;
+//! C07 — fee and change computation conserves value and pays the ZIP 317 fee.
+//!
+//! Enumerated (bounded, exhaustive): multisets of inputs and requested outputs over the four pools
+//! with values from a boundary alphabet, crossed with change-strategy configurations (strategy,
+//! split policy, wallet metadata, dust policy, fallback pool, memo, transparent-change policy,
+//! ephemeral balance, target height around NU5 / NU6.2 / NU6.3, anchor on/off the ZIP 318 grid);
+//! plus `FeeRule::fee_required` itself on a lattice of sizes and counts. Every case runs the real
+//! `compute_balance` / `fee_required` of /repo; the oracle (c07/model.rs) is exact i128 arithmetic
+//! written from ZIP 317 and the documentation.
 
-pub fn replay(_kind: &str, _case: &Value) -> Result<(), String> {
-    Err("C07: check not built".into())
+mod harness;
+mod model;
+mod space;
+
+use mc_core::{Args, Run, Tier};
+use model::*;
+use rayon::prelude::*;
+use serde_json::{json, Value};
+use std::collections::BTreeMap;
+
+/// Decide one balance case against prepared views (used by the sweep and by replay).
+fn check_with(net: &zcash_protocol::local_consensus::LocalNetwork, case: &Case, iv: &harness::InViews, ov: &harness::OutViews) -> Result<&'static str, String> {
+    let obs = harness::observe(net, &case.cfg, iv, ov);
+    let facts = Facts::new(case);
+    judge(case, &facts, &obs).map_err(|m| format!("{m} [observed {:?}]", obs))
 }
 
-pub fn run(_args: &Args) -> i32 {
-    mc_core::machinery_error("C07: check not built")
+pub fn check_case(case: &Case) -> Result<&'static str, String> {
+    let net = harness::network();
+    check_with(&net, case, &harness::in_views(&case.ins), &harness::out_views(&case.outs))
+}
+
+pub fn check_fee_case(c: &FeeCase) -> Result<&'static str, String> {
+    let net = harness::network();
+    let obs = harness::observe_fee(&net, c);
+    judge_fee(c, &obs).map_err(|m| format!("{m} [observed {:?}]", obs))
+}
+
+pub fn replay(kind: &str, case: &Value) -> Result<(), String> {
+    match kind {
+        "balance" => {
+            let c: Case = serde_json::from_value(case.clone()).map_err(|e| format!("bad case: {e}"))?;
+            check_case(&c).map(|_| ())
+        }
+        "fee" => {
+            let c: FeeCase = serde_json::from_value(case.clone()).map_err(|e| format!("bad case: {e}"))?;
+            check_fee_case(&c).map(|_| ())
+        }
+        _ => Err(format!("unknown kind {kind}")),
+    }
+}
+
+#[derive(Default)]
+struct Local {
+    n: u64,
+    outcomes: BTreeMap<&'static str, u64>,
+    first: BTreeMap<&'static str, String>,
+    /// violation messages reduced to their class (text before the first digit / bracket)
+    fail_classes: BTreeMap<String, (u64, String)>,
+    skipped_inputs: u64,
+}
+
+/// Wall-clock cap of the balance sweep (reported as a cap when hit).
+const WALL_CAP_S: f64 = 540.0;
+
+fn class_of(msg: &str) -> String {
+    msg.chars().take_while(|c| !c.is_ascii_digit() && *c != '[' && *c != '{' && *c != '(').collect::<String>().trim().to_string()
+}
+
+impl Local {
+    fn merge(mut self, o: Local) -> Local {
+        self.n += o.n;
+        self.skipped_inputs += o.skipped_inputs;
+        for (k, v) in o.outcomes {
+            *self.outcomes.entry(k).or_insert(0) += v;
+        }
+        for (k, v) in o.first {
+            self.first.entry(k).or_insert(v);
+        }
+        for (k, v) in o.fail_classes {
+            self.fail_classes.entry(k).or_insert((0, v.1)).0 += v.0;
+        }
+        self
+    }
+    fn violation(&mut self, msg: &str, key: impl FnOnce() -> String) {
+        self.n += 1;
+        let e = self.fail_classes.entry(class_of(msg)).or_insert_with(|| (0, key()));
+        e.0 += 1;
+    }
+    fn record(&mut self, label: &'static str, key: impl FnOnce() -> String) {
+        self.n += 1;
+        let e = self.outcomes.entry(label).or_insert(0);
+        if *e == 0 {
+            self.first.insert(label, key());
+        }
+        *e += 1;
+    }
+}
+
+fn fee_lattice(run: &Run, tier: Tier) -> Local {
+    // sizes on each side of the 150- and 34-byte units, the 297-byte P2SH used by the balance sweep,
+    // the consensus maximum input size, and "unknown"
+    let in_sizes: [Option<u64>; 8] = [Some(0), Some(1), Some(149), Some(150), Some(151), Some(297), Some(10_049), None];
+    let out_sizes: [u64; 8] = [0, 1, 9, 32, 34, 35, 44, 10_009];
+    let max_t = tier.pick(2, 3);
+    let in_sets = space::multisets(in_sizes.len(), max_t);
+    let out_sets = space::multisets(out_sizes.len(), max_t);
+    let small: Vec<u64> = vec![0, 1, 2, 3, 5];
+    // counts whose fee is on each side of MAX_MONEY, and far beyond it (no sum of four reaches 2^64)
+    let limit = (MAX_MONEY / MARGINAL) as u64;
+    let large: Vec<u64> = vec![0, 1, limit - 1, limit, limit + 1, 1u64 << 61];
+    let rules: Vec<u8> = (0..(2 + NONSTANDARD.len() as u8)).collect();
+    let eval = |loc: &mut Local, c: FeeCase| match check_fee_case(&c) {
+        Ok(l) => loc.record(l, || format!("{:?}", c)),
+        Err(m) => {
+            loc.violation(&m, || format!("{:?}", c));
+            run.fail("fee", format!("fee:{}", serde_json::to_string(&c).unwrap()), m, serde_json::to_value(&c).unwrap());
+        }
+    };
+    let a = in_sets
+        .par_iter()
+        .fold(Local::default, |mut loc, ti| {
+            let t_in: Vec<Option<u64>> = ti.iter().map(|i| in_sizes[*i as usize]).collect();
+            for to in &out_sets {
+                let t_out: Vec<u64> = to.iter().map(|i| out_sizes[*i as usize]).collect();
+                for &s_in in &small {
+                    for &s_out in &small {
+                        for &o_act in &small {
+                            for &i_act in &small {
+                                for rule in [0u8, 1] {
+                                    eval(&mut loc, FeeCase { rule, t_in: t_in.clone(), t_out: t_out.clone(), s_in, s_out, o_act, i_act, height: NU6_3 });
+                                }
+                            }
+                        }
+                    }
+                }
+            }
+            loc
+        })
+        .reduce(Local::default, Local::merge);
+    // large counts and non-standard parameter sets, with a few transparent shapes
+    let t_shapes: Vec<(Vec<Option<u64>>, Vec<u64>)> = vec![(vec![], vec![]), (vec![Some(150)], vec![34]), (vec![Some(151), Some(150)], vec![35]), (vec![None], vec![34])];
+    let b = large
+        .par_iter()
+        .fold(Local::default, |mut loc, &s_in| {
+            for &s_out in &large {
+                for &o_act in &large {
+                    for &i_act in &large {
+                        for (t_in, t_out) in &t_shapes {
+                            for &rule in &rules {
+                                for height in [NU5 - 1, NU6_3] {
+                                    eval(&mut loc, FeeCase { rule, t_in: t_in.clone(), t_out: t_out.clone(), s_in, s_out, o_act, i_act, height });
+                                }
+                            }
+                        }
+                    }
+                }
+            }
+            loc
+        })
+        .reduce(Local::default, Local::merge);
+    // non-standard parameter sets on the small lattice with one transparent item each side
+    let c = small
+        .par_iter()
+        .fold(Local::default, |mut loc, &s_in| {
+            for &s_out in &small {
+                for &o_act in &small {
+                    for &i_act in &small {
+                        for ti in in_sizes {
+                            for to in out_sizes {
+                                for &rule in &rules[2..] {
+                                    eval(&mut loc, FeeCase { rule, t_in: vec![ti], t_out: vec![to], s_in, s_out, o_act, i_act, height: NU6_3 });
+                                }
+                            }
+                        }
+                    }
+                }
+            }
+            loc
+        })
+        .reduce(Local::default, Local::merge);
+    a.merge(b).merge(c)
+}
+
+pub fn run(args: &Args) -> i32 {
+    let run = Run::new(args, "exploration");
+    let tier = args.tier;
+    run.set_rule(
+        "balance cases: (multiset of inputs, multiset of requested outputs, configuration); inputs/outputs are (pool, transparent script kind, value) items over the \
+         boundary alphabets, enumerated as non-decreasing index vectors so every multiset occurs once; three slices: value-rich (all core-alphabet flows x CV), \
+         out-of-range (every flow containing a MAX_MONEY-scale value x CO), configuration-rich (lean-alphabet flows x CC minus CV); flows whose payments exceed the \
+         inputs by more than 1.1e6 zatoshi get only the default-dust-policy part of CV; a configuration is used for a flow only if every pool the flow touches and the fallback pool exist at the target height; anchors off the grid only for flows with an Ironwood output. \
+         fee cases: (rule, transparent input sizes, output sizes, sapling spends/outputs, orchard actions, ironwood actions) over a size/count lattice. \
+         Every case is distinct by construction and executes the real code once",
+    );
+    run.assume("DustOutputPolicy threshold None delegates to the strategy; the ZIP 317 strategies use the marginal fee (5000) as the default dust threshold");
+    run.assume("zero-valued change is always allowed (documented for Reject and AddDustToFee)");
+    run.assume("AddDustToFee keeps sub-threshold change as a change output when it exceeds 10 x MINIMUM_FEE (documented defence against a too-high threshold); otherwise the folded amount is below the threshold");
+    run.assume("when transparent change is allowed and the change is exactly zero the P2PKH change output is omitted but the fee still covers it (documented: a zero-valued transparent output would be unspendable)");
+    run.assume("InsufficientFunds.required is outputs + the ZIP 317 fee of a shape the strategy may build (no change, or up to the policy's target number of change outputs in one pool), or inputs + dust shortfall under Reject; a change output is not needed only when nothing shielded is requested, no memo is set and the minimum fee exactly consumes the balance");
+    run.assume("requests paying into Orchard after NU6.3 are rejected upstream (Step::from_parts) and are excluded from the turnstile clause only");
+    run.assume("Ironwood bundle is unpadded exactly for a canonical crossing as documented on Step::is_canonical_crossing (without the fee condition); Orchard counts spends+outputs from NU6.3; Sapling outputs pad to 2; all other bundles pad to 2 actions");
+    run.assume("a ZIP 320 ephemeral output is an entry of proposed_change(), so Step::change_count_in_pool(TRANSPARENT) counts it and a step with one is not a canonical crossing (padded Ironwood bundle)");
+    run.assume("the dust threshold applies to every change output (the property's wording), not to the sum of a split change");
+    run.assume("Orchard padding is not a parameter of the public strategies (always DEFAULT); action counts near usize::MAX are outside the domain (counts are lengths of in-memory collections)");
+    run.assume("a transparent input of unknown P2SH size must produce an error; which error is not constrained beyond UnknownP2shInputs naming exactly those inputs");
+
+    let net = harness::network();
+    let in_items = space::in_items();
+    let out_items = space::out_items();
+    let in_sets = space::multisets(in_items.len(), tier.pick(2, 3));
+    let out_sets = space::multisets(out_items.len(), 2);
+    let cv = space::cfgs_value(tier);
+    let cv_hopeless: Vec<Cfg> = cv.iter().copied().filter(|c| c.dust_action == 0 && c.dust_threshold.is_none() && !c.memo && c.anchor_rem == 0).collect();
+    let co = space::cfgs_overflow();
+    let cc = space::cfgs_config(tier, &cv);
+    run.section("alphabet", json!({
+        "input_values_core": space::V_IN_CORE, "output_values_core": space::V_OUT_CORE, "out_of_range_values": space::V_BIG,
+        "input_values_lean": space::V_IN_LEAN, "output_values_lean": space::V_OUT_LEAN,
+        "input_items": in_items.len(), "output_items": out_items.len(),
+        "input_multisets": in_sets.len(), "output_multisets": out_sets.len(),
+        "configs_value_slice": cv.len(), "configs_value_slice_hopeless_flows": cv_hopeless.len(), "configs_out_of_range_slice": co.len(), "configs_config_slice": cc.len(),
+        "heights": space::HEIGHTS_ALL, "activation": {"nu5": NU5, "nu6_2": NU6_2, "nu6_3": NU6_3},
+    }));
+
+    run.section("shortcuts_covered", json!([
+        "zip317.rs ceildiv(t_in,150)/ceildiv(t_out,34): sizes 0,1,149,150,151,297,10049 / 0,1,9,32,34,35,44,10009 and their sums; P2PKH input reported as 150; 44-byte output = 2 units",
+        "zip317.rs max(grace, logical) and marginal*count overflow: counts 0..5 and MAX_MONEY/5000 -1/0/+1, 2^61",
+        "common.rs value <= marginal_fee (dust input): 1, 5000 | 5001",
+        "common.rs total_in cmp total_out+min_fee (Less/Equal/Greater) and total_in - total_out with the larger fee: inputs 10000/15000 against outputs 0/5000 and 2..6-action fees",
+        "common.rs total_change < dust threshold (None->5000, 0, 5000, 10^6) and total_change == 0",
+        "common.rs fee_with_dust > total_fee + 10*MINIMUM_FEE: threshold 10^6 with change on both sides of 100000",
+        "common.rs split_count < target_change_count (fee recomputation): targets 1,2,4 x note counts none,0,1,5 x change on both sides of 10^5 per output",
+        "common.rs select_change_pool: every subset of pools with flows, fallback x3, NU6.3 on/off, max change <,==,> Orchard input total",
+        "common.rs ironwood_is_canonical_crossing: 0/1/2 Orchard inputs, Ironwood inputs, 0/1/2 Ironwood outputs of canonical (10^6,10^8) and non-canonical values, anchor 0/1/143 mod 144, change in each pool, ephemeral output",
+        "common.rs fully_transparent && no memo; TransparentChangeAllowed; zero transparent change omitted",
+        "fees.rs TransactionBalance::new checked total; calculate_net_flows overflow: MAX_MONEY/2, MAX_MONEY-1 singly and in pairs",
+        "orchard num_actions: cross-address disabled from NU6.3 (spends+outputs) vs max(spends,outputs); pad to 2 / 1; sapling outputs pad to 2",
+    ]));
+    let out_flows: Vec<Vec<Item>> = out_sets.iter().map(|s| s.iter().map(|i| out_items[*i as usize]).collect()).collect();
+    let out_views: Vec<harness::OutViews> = out_flows.iter().map(|o| harness::out_views(o)).collect();
+    // OutViews hold Script (Vec<u8>) only: shareable across threads by reference.
+    let out_views = &out_views;
+    let out_flows = &out_flows;
+
+    let total = in_sets
+        .par_iter()
+        .fold(Local::default, |mut loc, is| {
+            if run.elapsed() > WALL_CAP_S {
+                loc.skipped_inputs += 1;
+                return loc;
+            }
+            let ins: Vec<Item> = is.iter().map(|i| in_items[*i as usize]).collect();
+            let iv = harness::in_views(&ins);
+            let mut case = Case { ins: ins.clone(), outs: vec![], cfg: space::baseline() };
+            for (oi, outs) in out_flows.iter().enumerate() {
+                let ov = &out_views[oi];
+                case.outs.clear();
+                case.outs.extend_from_slice(outs);
+                let min_h = space::flow_min_height(&ins, outs);
+                let has_i_out = outs.iter().any(|o| o.pool == I);
+                let big = space::has_big(&ins, outs);
+                let lean = !big && space::lean(&ins, outs);
+                // A request whose payments exceed its inputs by more than the largest dust threshold
+                // plus the largest fee is refused under every configuration; it is kept, but in the
+                // value-rich slice only under the default dust policy without memo.
+                let hopeless = !big && ins.iter().map(|i| i.value as i128).sum::<i128>() + 1_100_000 < outs.iter().map(|o| o.value as i128).sum::<i128>();
+                let cv_list: &[Cfg] = if hopeless { &cv_hopeless[..] } else { &cv[..] };
+                let lists: [&[Cfg]; 2] = if big { [&co[..], &[]] } else if lean { [cv_list, &cc[..]] } else { [cv_list, &[]] };
+                for list in lists {
+                    for cfg in list {
+                        if !space::cfg_valid_for(cfg, min_h, has_i_out) {
+                            continue;
+                        }
+                        case.cfg = *cfg;
+                        match check_with(&net, &case, &iv, ov) {
+                            Ok(l) => loc.record(l, || case.key()),
+                            Err(m) => {
+                                // keep the first case of every violation class (the cap in Run::fail
+                                // must not hide a class behind 40 instances of another one)
+                                let new_class = !loc.fail_classes.contains_key(&class_of(&m));
+                                loc.violation(&m, || case.key());
+                                if new_class || run.failure_count() < 8 {
+                                    run.fail("balance", case.key(), m, serde_json::to_value(&case).unwrap());
+                                }
+                            }
+                        }
+                    }
+                }
+            }
+            loc
+        })
+        .reduce(Local::default, Local::merge);
+
+    if total.skipped_inputs > 0 {
+        run.cap_hit(&format!("wall cap {}s: {} of {} input multisets (with all their outputs and configurations) not evaluated", WALL_CAP_S, total.skipped_inputs, in_sets.len()));
+    }
+    let fees = fee_lattice(&run, tier);
+    run.section("balance_cases", json!(total.n));
+    run.section("fee_cases", json!(fees.n));
+    let all = total.merge(fees);
+    run.eval_distinct(all.n);
+    for (k, v) in &all.outcomes {
+        run.outcome_n(k, *v);
+    }
+    for (k, v) in &all.first {
+        run.force_sample(json!({"outcome": k, "first_case": v}));
+    }
+    run.section("violation_classes", json!(all.fail_classes.iter().map(|(k, v)| json!({"class": k, "count": v.0, "first_case": v.1})).collect::<Vec<_>>()));
+    for (k, v) in &all.fail_classes {
+        eprintln!("  violation class [{}] x{} first: {}", k, v.0, v.1);
+    }
+    let must_see = [
+        "ok:no-change", "ok:zero-valued-change", "ok:change:sapling", "ok:change:orchard", "ok:change:ironwood", "ok:change:transparent", "ok:split:sapling",
+        "ok:change-promoted-to-ironwood", "ok:canonical-crossing-unpadded", "ok:dust-folded-into-fee", "ok:dust-change-allowed", "ok:zero-transparent-change-omitted",
+        "insufficient:below-minimum-fee", "insufficient:cannot-pay-for-change-output", "insufficient:dust-change-rejected", "dust-inputs", "unknown-p2sh-input",
+        "amount-out-of-range", "fee:grace", "fee:marginal-x-logical", "fee:overflow", "fee:unknown-p2sh",
+    ];
+    let missing: Vec<&str> = must_see.iter().copied().filter(|k| !all.outcomes.contains_key(k)).collect();
+    run.require(missing.is_empty() || run.failure_count() > 0, &format!("branches never reached: {:?}", missing));
+    run.finish(&replay)
 }
